@@ -15,7 +15,7 @@ import time
 
 VERIF = os.path.dirname(os.path.dirname(os.path.abspath(__file__)))
 REPO = os.environ.get("VERIF_REPO", "/repo")
-BUILD_ROOT = os.path.join(VERIF, ".build")
+BUILD_ROOT = os.environ.get("VERIF_BUILD_ROOT") or os.path.join(VERIF, ".build")
 GUARD = "OPENSMT_VERIF_HOOKS"
 
 COMMON = "-DNDEBUG -D%s -Wno-error" % GUARD
